@@ -18,6 +18,7 @@ def analyse(ctx: CheckContext, p: Program):
     ctx.guard(generic_rules, ctx, p, r, "C04", extra_modules=("OpenPinch/analysis/gcc_manipulation.py", "OpenPinch/analysis/data_preparation.py"))
     ctx.guard(bk.check_wrap, ctx, p, r, _funcs(p, ("OpenPinch.analysis.utility_targeting", "OpenPinch.analysis.gcc_manipulation")))
     ctx.guard(bk.check_assignment_booking, ctx, p, r)
+    ctx.guard(inval.check_between_pinches, ctx, p, r)
     ctx.guard(bk.check_default_filter, ctx, p, r)
     ctx.guard(bk.check_zero_seeded_utilities, ctx, p, r)
     eng = inval.InvalEngine(p, r)
